@@ -96,6 +96,17 @@ check("C18", "exploration",
       "Package names come from go/parser over GOROOT/src, not from jennifer's table.",
       "DESIGN.md §3 C18", "E1-range")
 
+check("C01", "exploration",
+      "complete enumeration of a fixed corpus (every .go file of GOROOT/src and of the repository) + deviation-bounded enumeration of a Go-source generator, each program translated construct by construct into DSL calls, rendered, re-parsed and compared as canonical syntax trees",
+      "Every file of the finite corpus and every generated program with <= 3 (quick) / 4 (thorough) non-default productions goes through the real DSL and renderer; the oracle is syntax-tree equality computed by go/parser on both sides.",
+      "Files with dot imports / a path imported twice are skipped and counted; gofmt damaging the reference program itself is attributed to gofmt and counted; deeper programs outside the corpus are outside the bound.",
+      "DESIGN.md §3 C01", "E5+E1")
+check("C02", "exploration",
+      "exhaustive enumeration of 1- and 2-construct compositions over the whole reflected API with nonsensical arguments, all File-setting combinations, every single damage at every item of every list site of generated programs; twin oracle formatted == gofmt(raw of an identically built File), also under different map iteration orders",
+      "All compositions within the stated size are built twice (formatted / NoFormat twin) on the implementation and judged; both outcome classes (valid, error) are populated.",
+      "Documented deliberate panics are outside the alphabet; a fragment that is a complete file by itself is tolerated for Statement.Render.",
+      "DESIGN.md §3 C02", "E1+E5+E4")
+
 NOT_YET = {}
 ids = [json.loads(l)['id'] for l in open('/verif/properties.jsonl')]
 m = {
@@ -113,6 +124,7 @@ m = {
   {"name": "E2", "path": "internal/statespace", "serves_properties": ["C03","C04","C06","C08","C19","C20"], "kind_free_text": "explicit-state BFS over the real implementation (state = history replayed on fresh objects, canonical key by reflection, invariant in every distinct state)"},
   {"name": "E3", "path": "internal/sched", "serves_properties": ["C09"], "kind_free_text": "cooperative scheduler over real goroutines, preemption-bounded schedule enumeration through E1, snapshot/restore of package-level variables"},
   {"name": "E4", "path": "cmd/instr + internal/env", "serves_properties": ["C07","C09","C16"], "kind_free_text": "go/types-driven source instrumenter (overlay build): controlled map iteration order, scheduling points at package-level state; fault-injecting writer"},
+  {"name": "E5", "path": "internal/a2j + internal/norm + checks/gogen.go", "serves_properties": ["C01","C02"], "kind_free_text": "go/ast -> DSL translator, canonical syntax-tree printer, choice-point generator of Go source files"},
  ],
  "checks": [],
  "not_applicable": [],
